@@ -214,6 +214,12 @@ theorem sorted_list_refines_spec :
    fun sq _ h r hp => ⟨by have := refines_peek h; simp only [SortedQ.peek] at this; simp only [SortedQ.pop] at hp; rw [hp] at this; exact this,
      refines_pop h hp⟩⟩
 
+/-- The list `taus` that the driver's quiescence check evaluates is complete: every enabled
+internal label occurs in it (for both variants of the code). -/
+theorem internal_steps_listed {cfg : Cfg} {s s' : State κ ν} {l : Label κ ν}
+    (hi : l.isInternal = true) (hst : step cfg s l = some s') : l ∈ taus cfg s :=
+  taus_complete hi hst
+
 /-! ## the loop before the fix: a stranded item -/
 
 /-- The 5-step schedule: Enqueue a; Dequeue a (reset buffered); the loop peeks, sees the queue
